@@ -85,6 +85,8 @@ def make_scenario(k, rng, sources):
     if sc['fail'] == 'no-contracts':
         sc['use_toml'] = False      # otherwise the configured path is used (C14)
     sc['toml_lists'] = c14.random_lists(_T[0], rng) if sc['use_toml'] else None
+    # the analysed directory named by the configuration file (no --path), the file itself lying in another directory
+    sc['path_from_toml'] = bool(sc['use_toml'] and sc['fail'] is None and rng.random() < 0.6)
     sc['stale_seed'] = rng.getrandbits(32)
     return sc
 
@@ -136,6 +138,8 @@ def build(sc, sources, root):
         argv += ['--path', os.path.join(path_arg, 'does_not_exist')]
     elif sc['fail'] == 'no-contracts':
         pass
+    elif sc.get('path_from_toml'):
+        pass
     else:
         argv += ['--path', path_arg]
     toml_rec = None
@@ -144,7 +148,7 @@ def build(sc, sources, root):
         lists = {k: list(v) for k, v in lists.items()}
         if sc['fail'] == 'unknown-name':
             lists['vul'] = lists['vul'] + ['no_such_pattern']
-        t = {'kind': 'valid', 'path': './nowhere', 'lists': lists}
+        t = {'kind': 'valid', 'path': path_arg if sc.get('path_from_toml') else './nowhere', 'lists': lists}
         txt = c14.toml_text(t)
         if sc['fail'] == 'bad-toml':
             txt = 'this is = not [ toml\n'
@@ -329,7 +333,7 @@ def run(rep, ctx):
                                    'theorem': 'run_frame / run_overwrites / failed_run_writes_nothing / old_report_inert'})
             # the model's view of the first run of this scenario
             analysis_ok = sc['fail'] not in ('missing-dir', 'bad-utf8', 'unparsable-file')
-            cases.append({'path': sc['fail'] != 'no-contracts', 'toml': toml_rec is not None or sc['fail'] == 'bad-toml',
+            cases.append({'path': sc['fail'] != 'no-contracts' and not sc.get('path_from_toml'), 'toml': toml_rec is not None or sc['fail'] == 'bad-toml',
                           'toml_file': True, 'toml_rec': toml_rec, 'contracts': False, 'analysis_ok': analysis_ok,
                           'old': 'dir' if sc['fail'] == 'report-is-a-directory' else ('file' if facts['had_report'] else 'none')})
             observed.append((facts['exits'][0], 1 if (facts['created'] or facts['replaced']) else 0, sc))
